@@ -20,6 +20,7 @@ import VsgProofs.Lemmas.PostPhase1
 import VsgModel.Generated.CaseRules
 import VsgProofs.Lemmas.BaseCaseTok
 import VsgProofs.Lemmas.BaseCaseAscii
+import VsgProofs.Lemmas.BaseStructDispatch
 namespace Vsgm.C03
 open Vsgm
 
@@ -577,7 +578,7 @@ theorem bfix_case_not_caseOnly_for_all_actions :
     case-only: it keeps the token count, every class, the code sequence and every comment, and the
     changed value has the same length.  Hypotheses: the character tables (`CharWise`, discharged for
     ASCII below) and `TokOk` for the analysed token — a code token, NOT AN EXTENDED IDENTIFIER. -/
-theorem bfull_case_caseOnly {E : Env} {fold : Str → Str} {lc uc fc : Char → Char}
+theorem bfull_case_caseOnly {E : Case.Env} {fold : Str → Str} {lc uc fc : Char → Char}
     (T : CharWise E fold lc uc fc) (owner : String) (ho : owner ∈ Base.caseTokenOwners)
     (params : Base.KV) (p : Params) (old new : List Tok) (a : Action)
     (hok : ∀ t, old[0]? = some t → TokOk p t)
@@ -602,7 +603,7 @@ theorem bfull_case_caseOnly_ascii (fm : String → Str → Bool) (owner : String
 
 /-- string and character literals never reach the fix: a value that starts with `"` or `'` is
     skipped by the analysis of every rule that is not named `bit_string_literal` (commit da18b98) -/
-theorem bfull_case_literal_skipped (E : Env) (p : Params) (l : List Tok) (t : Tok)
+theorem bfull_case_literal_skipped (E : Case.Env) (p : Params) (l : List Tok) (t : Tok)
     (hn : p.name ≠ bitStringLiteral) (h0 : l[0]? = some t) (hq : doesNotContainAnyAlpha t.val = true) :
     TokenCase.analyzeToi E p l = .ok none := by
   unfold TokenCase.analyzeToi
@@ -631,7 +632,7 @@ theorem bfull_case_extended_identifier_changed :
 
 /-- B-FULL, formal parts of port / generic maps (2 rules) — PARTIAL: no word twice in different case
     in `case_exceptions` -/
-theorem bfull_case_formal_caseOnly_partial {E : Env} {fold : Str → Str} {lc uc fc : Char → Char}
+theorem bfull_case_formal_caseOnly_partial {E : Case.Env} {fold : Str → Str} {lc uc fc : Char → Char}
     (T : CharWise E fold lc uc fc) (owner : String) (ho : owner ∈ Base.caseFormalOwners)
     (params : Base.KV) (c : FormalPart.Classes) (p : Params) (old new : List Tok) (acts : List Action)
     (a : Action) (hnd : NoCaseDup E p.exceptions)
@@ -661,7 +662,7 @@ theorem bfull_case_formal_index_witness :
 
 /-- B-FULL (value part), `consistent_token_case` (10 rules): the expected spelling is the first
     declared identifier that equals the name after `lower()` -/
-theorem bfull_case_consistent_caseOnly {E : Env} {fold : Str → Str} {lc uc fc : Char → Char}
+theorem bfull_case_consistent_caseOnly {E : Case.Env} {fold : Str → Str} {lc uc fc : Char → Char}
     (T : CharWise E fold lc uc fc) (owner : String) (ho : owner ∈ Base.caseConsistentOwners)
     (params : Base.KV) (ids : List Str) (old new : List Tok) (t : Tok) (e : Str)
     (h0 : old[0]? = some t) (hc : t.isCode = true) (hx : t.exact = false)
@@ -674,7 +675,7 @@ theorem bfull_case_consistent_caseOnly {E : Env} {fold : Str → Str} {lc uc fc 
 
 /-- B-FULL (value part), `consistent_interface_token_case` / `consistent_subprogram_parameter_token_case`
     (4 rules): the expected spelling is the last declared name that equals the token after `lower()` -/
-theorem bfull_case_interface_caseOnly {E : Env} {fold : Str → Str} {lc uc fc : Char → Char}
+theorem bfull_case_interface_caseOnly {E : Case.Env} {fold : Str → Str} {lc uc fc : Char → Char}
     (T : CharWise E fold lc uc fc) (owner : String) (ho : owner ∈ Base.caseInterfaceOwners)
     (params : Base.KV) (ids : List Str) (old new : List Tok) (t : Tok) (e : Str)
     (h0 : old[0]? = some t) (hc : t.isCode = true) (hx : t.exact = false)
@@ -741,5 +742,57 @@ example : ∃ (p : Base.Case.Params) (old new : List Tok) (a : Base.Case.Action)
     [⟨0, .code, "Abc".toList⟩], [⟨0, .code, "aBC".toList⟩], { value := some "aBC".toList, index := 0 },
     by decide +kernel, by decide +kernel, by decide +kernel, by decide +kernel⟩
 /-! ### END ag_bcase -/
+
+/-! ### BEGIN ag_bstruct (insert / remove / parens / split / multiline alignment) -/
+
+/-! ### layer B, structure family dispatcher and the remaining alignment fixers -/
+
+/-- every owner that no earlier arm of the dispatcher serves is served by the structure-family
+    dispatcher, instantiated with the class tree of the pinned repository -/
+theorem fixByOwner_struct (owner : String) (params action : Base.KV) (old : List Tok)
+    (h : owner ∉ Base.earlierOwners) :
+    Base.fixByOwner owner params action old = Base.fixStruct Base.stdEnv owner params action old := by
+  simp only [Base.earlierOwners, List.mem_append, not_or] at h
+  obtain ⟨⟨⟨⟨⟨⟨⟨⟨⟨⟨⟨⟨⟨⟨h1, h2⟩, h3⟩, h4⟩, h5⟩, h6⟩, h7⟩, h8⟩, h9⟩, h10⟩, h11⟩, h12⟩, h13⟩, h14⟩, h15⟩ := h
+  unfold Base.fixByOwner
+  simp only [h1, h2, h3, h4, h5, h6, h7, h8, h9, h10, h11, h12, h13, h14, h15, if_false]
+
+/-- `multiline_alignment_between_tokens` (10 rules), `multiline_array_alignment`,
+    `multiline_conditional_alignment`, `align_consecutive_lines_after_line_starting_with_token_and_stopping_with_token`:
+    for EVERY action (adjust / insert / when / else / indent, any column string, any adjust) and every
+    class environment, the fix changes nothing but layout tokens PROVIDED the first token of interest
+    is a layout token (or there is none) -/
+theorem bfix_alignMulti_layoutOnly_partial (E : Base.Env) (owner : String) (o : Base.SOwner) (params action : Base.KV)
+    (old new : List Tok) (ho : Base.sownerOf owner = some o) (hal : o.isAlign = true)
+    (h : Base.fixStruct E owner params action old = some (.ok new))
+    (hf : Base.AlignMulti.firstIsLayout old = true) : LayoutOnly old new := by
+  unfold Base.fixStruct at h
+  simp only [ho, Option.map_some, Option.some.injEq] at h
+  exact Base.fixS_align_layoutOnly E o params action old new hal h hf
+
+/-- the excluded case is real: action `adjust` rewrites the value of the first token whatever it
+    is — here an identifier becomes blanks (the fixer never looks at the token's class) -/
+theorem bfix_alignMulti_not_layoutOnly :
+    let old : List Tok := [⟨9, .code, "a".toList⟩, ⟨9, .code, "b".toList⟩]
+    let action : Base.KV := [("action", .str "adjust".toList), ("column", .str "  ".toList)]
+    ∃ new, Base.fixS Base.stdEnv .multiAlign [] action old = .ok new ∧ ¬ LayoutOnly old new ∧
+      codeSeq id old ≠ codeSeq id new := by
+  refine ⟨[⟨9, .code, "  ".toList⟩, ⟨9, .code, "b".toList⟩], by rfl, by decide, by decide⟩
+
+/-- the rules served by the models of this family, one scan of the rule table: the alignment fixers
+    serve documented layout rules (alignment group, phases 4–5); the owners that add / remove code tokens
+    serve only phase-1 `structure` rules, the insert family exactly `structure::optional` rules with an
+    `action` option -/
+theorem struct_family_rule_groups : ∀ r ∈ Gen.ruleTable, ∀ o, Base.sownerOf r.fixVOwner = some o →
+    (o.isAlign = true → Verdict.effectOfGroups r.groups = .layout ∧ (r.phase = 4 ∨ r.phase = 5)) ∧
+    (o.isAlign = false → Verdict.effectOfGroups r.groups = .any ∧ r.phase = 1 ∧
+      (o.isInsert = true → "structure::optional" ∈ r.groups ∧ "action" ∈ r.configuration)) := by
+  decide +kernel
+
+/-- every modelled owner serves at least one rule (no dead model) -/
+theorem struct_owners_used : ∀ o ∈ Base.SOwner.all, ∃ r ∈ Gen.ruleTable, Base.sownerOf r.fixVOwner = some o := by
+  decide +kernel
+
+/-! ### END ag_bstruct -/
 
 end Vsgm.C03
